@@ -279,6 +279,10 @@ pub fn hostile_parts(tier: Tier) -> Vec<(&'static str, u64, u64, &'static str)> 
         ("hostile/quantile", N_QMODELS * 65536, 8192, "quantile_function at every value of the probability type on 12 decoder models"),
         ("hostile/rawans", 65536 * 3 * 4, 16384, "AnsCoder<u8,u16>::from_raw_parts: all 65536 head values x 3 bulks x 4 operation groups"),
         ("hostile/rawrange", 576 * 4, 144, "RangeEncoder/RangeDecoder::from_raw_parts over boundary lower/range/situation/point values"),
+        ("hostile/huffman", super::c20b::huffman_total(), 64, "Huffman trees from every weight vector of length <= 5 over {0,1,2,5} (u32 and f32) + hostile floats: every symbol 0..=2n+3 and far outside, every bit string of length <= 7"),
+        ("hostile/bits", super::c20b::bits_total(), 256, "bit coders over arbitrary words; Exp-Golomb<u8> on every bit string of length <= 18, boundary prefixes for u16/u32/u64"),
+        ("hostile/seek", super::c20b::seek_total(), 64, "seek((pos, state)) with every position 0..=len+2 x 10 boundary states on ANS / range decoders over owned, borrowed, consuming, reversed backends"),
+        ("hostile/chain", super::c20b::chain_total(), 128, "ChainCoder constructors over word strings of length <= 3 (+ longer) x 9 hostile operation orders"),
     ]
 }
 
@@ -294,6 +298,10 @@ pub fn child(part: &str, from: u64, to: u64) -> i32 {
             "hostile/quantile" => quantile_program(i, &mut sink),
             "hostile/rawans" => raw_ans_program(i, &mut sink),
             "hostile/rawrange" => raw_range_program(i, &mut sink),
+            "hostile/huffman" => super::c20b::huffman_program(i, &mut sink),
+            "hostile/bits" => super::c20b::bits_program(i, &mut sink),
+            "hostile/seek" => super::c20b::seek_program(i, &mut sink),
+            "hostile/chain" => super::c20b::chain_program(i, &mut sink),
             other => { eprintln!("unknown hostile part {other}"); return 2; }
         }
     }
@@ -301,7 +309,7 @@ pub fn child(part: &str, from: u64, to: u64) -> i32 {
 }
 
 pub fn run(report: &Report) {
-    report.bound("(i) the complete C19 constructor sweep and the complete C10 decoding sweep re-run in classification mode; (ii) hostile programs: every (buffer length <= 4, position, buf_mut mutation, backend operation) combination; every user table of <= 2 rows x conversions; quantile_function at every probability value on 12 models; AnsCoder from all 65536 raw head values; range coders from boundary raw parts");
+    report.bound("(i) the complete C19 constructor sweep and the complete C10 decoding sweep re-run in classification mode; (ii) hostile programs: every (buffer length <= 4, position, buf_mut mutation, backend operation) combination; every user table of <= 2 rows x conversions; quantile_function at every probability value on 12 models; AnsCoder from all 65536 raw head values; range coders from boundary raw parts; Huffman codebooks with every symbol in and around the alphabet and every short bit string; bit coders and Exp-Golomb on arbitrary bits; seek with arbitrary positions and states; ChainCoder in hostile orders");
     report.assume("memory-safety verdicts are those of std's unsafe-precondition checks (get_unchecked, NonZero::new_unchecked, unreachable_unchecked, slice::from_raw_parts ...), overflow checks and debug assertions compiled into constriction, on the executions enumerated");
     report.assume("a program's outcome is judged from the child's exit status and panic message; clean panics and error values are allowed");
     for n in ["hostile_programs", "programs_ending_in_a_clean_panic", "models_built", "symbols_decoded"] {
